@@ -1133,6 +1133,8 @@ def build_ptr_mut(repo):
     ctx = ctx_impl(src, log, names)
     b = handler(src, log, "ptr_mut", [
         Rule("R13", "vec_ptr . set ( new_val ) ?", "vec_ptr . set ( new_val , writes ) ?", why="write through the pointer recorded in an explicit write log (HeapPrimitive::set itself: obligation C08.ptr.set)"),
+        Rule("R9", "if let HeapPrimitive :: $k ( .. ) = $v {", lambda bb: f'if heap_kind_is ( & {text(bb["v"])} , "{text(bb["k"])}" ) {{', why="test on the kind of pointer (list slot / field / map entry): uninterpreted"),
+        Rule("R9", "matches ! ( $v , HeapPrimitive :: $k ( .. ) )", lambda bb: f'heap_kind_is ( & {text(bb["v"])} , "{text(bb["k"])}" )', why="test on the kind of pointer: uninterpreted"),
     ])
     gen = header(log, f"{INSTR}: ptr_mut; {CTXF}: Ctx::pop, Ctx::stack_size") + prelude("ctx.rs") + ctx + f"""
 // every write through a pointer, in order: which pointer, which value
@@ -1140,10 +1142,23 @@ def build_ptr_mut(repo):
 pub uninterp spec fn written(w: &Writes) -> Seq<(HeapV, Primitive)>;
 impl HeapV {{
     #[verifier::external_body] pub fn set(&self, v: Primitive, w: &mut Writes) -> (r: Result<(), VErr>)
-        ensures r is Ok ==> written(final(w)) == written(old(w)).push((*self, v)), r is Err ==> written(final(w)) == written(old(w)) {{ unimplemented!() }}
+        ensures r is Ok <==> set_ok(*self, v), r is Ok ==> written(final(w)) == written(old(w)).push((*self, v)), r is Err ==> written(final(w)) == written(old(w)) {{ unimplemented!() }}
     // what the slot holds now (HeapPrimitive::to_owned_primitive): uninterpreted
     #[verifier::external_body] pub fn to_owned_primitive(&self) -> (r: Result<Primitive, VErr>) ensures r is Ok ==> heap_deref(self) == Some(r->Ok_0) {{ unimplemented!() }}
 }}
+// HeapPrimitive::set itself (obligation C08.ptr.set): fails only for a map pointer whose key cannot be inserted
+pub uninterp spec fn set_ok(h: HeapV, v: Primitive) -> bool;
+pub uninterp spec fn heap_kind(h: &HeapV, k: &str) -> bool;
+#[verifier::external_body] pub fn heap_kind_is(h: &HeapV, k: &str) -> (r: bool) ensures r == heap_kind(h, k) {{ unimplemented!() }}
+// run-time type tags a change may compare: equality uninterpreted
+#[verifier::external_body] pub struct TypeTag {{ x: usize }}
+pub uninterp spec fn tag_eq(a: TypeTag, b: TypeTag) -> bool;
+impl vstd::std_specs::cmp::PartialEqSpecImpl for TypeTag {{
+    open spec fn obeys_eq_spec() -> bool {{ true }}
+    open spec fn eq_spec(&self, other: &TypeTag) -> bool {{ tag_eq(*self, *other) }}
+}}
+impl PartialEq for TypeTag {{ #[verifier::external_body] fn eq(&self, other: &TypeTag) -> (r: bool) ensures r == tag_eq(*self, *other) {{ unimplemented!() }} }}
+impl Primitive {{ #[verifier::external_body] pub fn ty(&self) -> (r: TypeTag) {{ unimplemented!() }} }}
 
 //@ OBL C08.handler.ptr_mut
 // `place = v` with the place's pointer and v on the stack: exactly one write, of exactly v, through exactly that pointer -- whatever
@@ -1153,6 +1168,8 @@ pub fn ptr_mut(ctx: &mut Ctx, _args: &Vec<VString>, writes: &mut Writes) -> (r: 
         r is Ok ==> ({{ let s = old(ctx).stack@; let n = s.len() as int;
             n >= 2 && s[n - 2] is HeapPrimitive && final(ctx).stack@ == s.subrange(0, n - 2)
             && written(final(writes)) == written(old(writes)).push((s[n - 2]->HeapPrimitive_0, s[n - 1])) }}),
+        // UNCONDITIONALLY: with a pointer and a value on the stack the only failure is that of the write itself -- no test on what the slot held or holds
+        ({{ let s = old(ctx).stack@; let n = s.len() as int; n >= 2 && s[n - 2] is HeapPrimitive && set_ok(s[n - 2]->HeapPrimitive_0, s[n - 1]) }}) ==> r is Ok,
         r is Err ==> written(final(writes)) == written(old(writes)),
         rest(final(ctx)) == rest(old(ctx)),
 {{
